@@ -534,6 +534,12 @@ class RTCPeerConnection(AsyncIOEventEmitter):
             await self.__sctp.transport.stop()
             await self.__sctp.transport.transport.stop()
 
+        # a negotiation in progress may have detached transports it was
+        # about to discard, stop those as well
+        for dtlsTransport in list(self.__dtlsTransports):
+            await dtlsTransport.stop()
+            await dtlsTransport.transport.stop()
+
         # update states
         self.__updateIceGatheringState()
         self.__updateIceConnectionState()
